@@ -989,12 +989,22 @@ func (k Keeper) DeductServiceFees(
 	consumer sdk.AccAddress,
 	serviceFees sdk.Coins,
 ) error {
-	return k.bankKeeper.SendCoinsFromAccountToModule(
-		ctx,
+	// all or nothing: the end blocker calls this outside a transaction, where a transfer
+	// failing on a later denom would otherwise leave the earlier denoms deducted
+	cacheCtx, writeCache := ctx.CacheContext()
+
+	if err := k.bankKeeper.SendCoinsFromAccountToModule(
+		cacheCtx,
 		consumer,
 		types.RequestAccName,
 		serviceFees,
-	)
+	); err != nil {
+		return err
+	}
+
+	writeCache()
+
+	return nil
 }
 
 func (k Keeper) GetPrice(
